@@ -257,6 +257,8 @@ def step(ctx, case):
             continue
         if C02:
             ctx.check('C02 incarnation count of an id (creations exactly as the model says)', len(lst) == len(incs))
+        if C03:
+            ctx.check('C03 objects come into being / a handed-out-again server id starts a new incarnation exactly as the model says', len(lst) == len(incs))
         if len(lst) != len(incs):
             continue
         for gi, (o, inc) in enumerate(zip(lst, incs)):
@@ -322,6 +324,42 @@ def long_reuse(ctx, case):
     ctx.check('a later mention goes to the latest incarnation', m.obj.resolved() and m.obj.generation == n - 1 and m.args[0].obj is m.obj)
     labels = [o.id_str() for o in conn.db[i]]
     ctx.check('no two incarnations share a label', len(set(labels)) == len(labels))
+
+
+def undescribed(ctx, case):
+    """with the real protocol descriptions loaded: a new id carried by a message (or at a position) the shipped description of a KNOWN
+    interface does not have still creates its object, and later mentions go to it"""
+    from core import wl, matcher, util
+    from core.connection_manager import ConnectionManager
+    from core.wl import protocol
+    from core.output import Output, stream
+    from backends.libwayland_debug_output import parse
+    import logging
+    logging.disable(logging.CRITICAL)
+    if not protocol.interfaces or 'wl_display' not in protocol.interfaces:
+        protocol.interfaces.clear()
+        protocol.load_all(Output(False, False, stream.Null(), stream.Null()))
+    util.color_output = False
+    wl.Message.base_time = None
+    kind = ctx.choose(['unknown-message', 'beyond-last-argument', 'described'], 'kind')
+    sent = ctx.choose([True, False], 'sent')
+    arrow = '  -> ' if sent else ' '
+    creator = {'unknown-message': 'wl_display@1.get_registry_v9(new id wl_registry@9)',
+               'beyond-last-argument': 'wl_display@1.get_registry(new id wl_registry@2, 5, new id wl_callback@9)',
+               'described': 'wl_display@1.sync(new id wl_callback@9)'}[kind]
+    mgr = ConnectionManager()
+    mgr.open_connection(0.0, 'PARSED', None)
+    lines = ['[1.000]%s%s' % (arrow, creator), '[2.000]%sthing@9.poke(thing@9)' % arrow]
+    msgs = []
+    for l in lines:
+        cid, m = parse.message(l.replace('thing@9', {'unknown-message': 'wl_registry@9', 'beyond-last-argument': 'wl_callback@9', 'described': 'wl_callback@9'}[kind]))
+        mgr.message(cid, m)
+        msgs.append(m)
+    news = [a for a in msgs[0].args if isinstance(a, wl.Arg.Object) and a.is_new]
+    ctx.check('every new-id argument creates its object', all(a.obj.resolved() and a.obj.generation == 0 for a in news))
+    ctx.check('a later message on that id is attributed to the created object', msgs[1].obj.resolved() and msgs[1].obj is [a for a in news if a.obj.id == 9][0].obj)
+    ctx.check('and so is a later object argument', msgs[1].args[0].obj is msgs[1].obj)
+    protocol.interfaces.clear()
 
 
 def annotation(ctx, case):
@@ -433,6 +471,8 @@ def make_obligations(pid, tier):
                 FUNCS + ['core.wl.message:Message.__str__'], '2 sides x 3 creation times x 4 lifespans x creator first or not x id reused before or not', annotation, cases=[None])] if pid == 'C03' else []
     extra += [Ob('long-reuse', 'symx', 'one id handed out up to 703 times (client id with delete_id in between, or server-range id reused freely): incarnation index and letters of every creation and mention',
                  FUNCS, 'id symbolic in the client resp. server range; 27, 28, 53 and 703 creations', long_reuse, cases=[(27, False), (28, True), (53, True), (703, False)] if tier == 'quick' else [(27, False), (27, True), (28, True), (28, False), (53, True), (703, False), (704, True)])] if pid == 'C02' else []
+    extra += [Ob('creation-on-undescribed-message', 'symx', 'with the shipped descriptions loaded, a new id on a message / at a position the description of a known interface lacks still creates its object', FUNCS + ['core.wl.protocol:get_arg'],
+                 '3 message shapes x 2 directions, through the real decoder', undescribed, cases=[None])] if pid == 'C02' else []
     obs = [Ob('object-table-step', 'symx', 'Inv /\\ one ConnectionImpl.message step => spec /\\ Inv (histories of any length by induction)',
               FUNCS, bounds, step, cases=cases, stubs=STUBS, outside=outside, budget_s=1500 if tier == 'quick' else 6000),
            Ob('object-table-step-reachable', 'symx', 'reachability twin of the step obligation', FUNCS, bounds, twin,
